@@ -141,6 +141,10 @@ class BaseHandler:
             and (self.selector.find(".\\") == -1)
             and (self.selector.find("\\\\") == -1)
             and (self.selector.find("\0") == -1)
+            # '/dir/.' and '/dir/' (left over from '/dir//') are other
+            # spellings of '/dir' that share its files, e.g. its cache file
+            and not self.selector.endswith("/.")
+            and not (len(self.selector) > 1 and self.selector.endswith("/"))
         )
 
     def canhandlerequest(self) -> bool:
